@@ -341,7 +341,7 @@ Lemma wf_parts :
   /\ no_unique_collision a Ideal = true.
 Proof.
   pose proof Hwf as H. unfold wf in H. rewrite !andb_true_iff in H.
-  destruct H as [[[[[[_ _] _] Hkeys] _] Hu] Hws]. split; [|split; auto].
+  destruct H as [[[[[_ _] _] Hkeys] Hu] Hws]. split; [|split; auto].
   eapply nodup_b_NoDup; [apply qname_eqb_eq | eauto].
 Qed.
 
@@ -357,7 +357,7 @@ Proof. apply wf_parts. Qed.
 Lemma ws_ok_parts p w : ws_ok a p w = true ->
   ws_anc a (fuelw a) (p_name p) (w_inh w) <> None /\ forallb (stmt_ok a p w) (w_items w) = true.
 Proof.
-  unfold ws_ok. rewrite !andb_true_iff. intros [[[[[[[[Hanc _] _] _] _] _] _] _] Hst]. split; auto.
+  unfold ws_ok. rewrite !andb_true_iff. intros [[[[[[[Hanc _] _] _] _] _] _] Hst]. split; auto.
   destruct (ws_anc a (fuelw a) (p_name p) (w_inh w)); discriminate.
 Qed.
 
@@ -454,17 +454,17 @@ Qed.
 
 (* ------------------------------------------------------------------ part 2: the Go model against the spec *)
 
-(* the Go model's item `g` against the spec's item `i`: identical, except that the ACL of a
-   workspace is the declared block repeated *)
+(* the Go model's item `g` against the spec's item `i`: identical (kept as a match: the workspace case
+   is where the two differed while the ACL block was repeated per heir, finding F28) *)
 Definition item_ok (i g : item) : Prop :=
   match i, g with
   | ItWs q ab anc d u acl, ItWs q' ab' anc' d' u' acl' =>
-    q = q' /\ ab = ab' /\ anc = anc' /\ d = d' /\ u = u' /\ exists k, acl' = repeat_list acl (S k)
+    q = q' /\ ab = ab' /\ anc = anc' /\ d = d' /\ u = u' /\ acl' = acl
   | _, _ => i = g
   end.
 
 Lemma item_ok_refl i : item_ok i i.
-Proof. destruct i; cbn; auto. repeat split; auto. exists O. cbn. rewrite app_nil_r. auto. Qed.
+Proof. destruct i; cbn; auto. repeat split; auto. Qed.
 
 Lemma Forall2_refl {A} (R : A -> A -> Prop) (Hr : forall x, R x x) l : Forall2 R l l.
 Proof. induction l; constructor; auto. Qed.
@@ -569,6 +569,30 @@ Variable m : mode.
 Hypothesis Hcoll : m_uniq_per_type m = true \/ no_unique_collision a m = true.
 Hypothesis Hnest : m_nested_inherit m = true \/ no_nested_user_inherit a = true.
 Hypothesis Hview : m_view_refs m = true \/ no_view_ref_targets a = true.
+Hypothesis Hacl : m_acl_repeat m = false \/ no_inherited_acl a = true.
+Hypothesis Hdesc : m_desc_refs m = true \/ no_desc_ref_targets a = true.
+
+Lemma desc_item_eq p w : In (p, w) (all_ws a) -> desc_item Ideal (p_name p) w = desc_item m (p_name p) w.
+Proof.
+  intros Hpw. unfold desc_item. cbn [m_desc_refs Ideal]. destruct (m_desc_refs m) eqn:Em; auto.
+  destruct Hdesc as [H | H]; [discriminate|]. unfold no_desc_ref_targets in H. rewrite forallb_forall in H.
+  specialize (H _ Hpw). cbn [fst snd] in H. f_equal. f_equal. destruct (w_desc w) as [fs|]; auto.
+  apply map_ext_in. intros x Hx. rewrite forallb_forall in H. specialize (H _ Hx).
+  destruct x as [f | n [|r rs] nn]; cbn [fd_of_ditem]; auto; discriminate.
+Qed.
+
+Lemma repeat_list_nil0 {A} n : @repeat_list A [] n = [].
+Proof. induction n; cbn; auto. Qed.
+
+Lemma acl_once p w : In (p, w) (all_ws a) ->
+  repeat_list (acl_block (p_name p) w) (acl_repeat a m (p_name p, w_name w)) = repeat_list (acl_block (p_name p) w) 1.
+Proof.
+  intros Hpw. unfold acl_repeat. destruct (m_acl_repeat m) eqn:Em; auto.
+  destruct Hacl as [H | H]; [discriminate|]. unfold no_inherited_acl in H. rewrite forallb_forall in H.
+  specialize (H _ Hpw). cbn [fst snd] in H. destruct (acl_block (p_name p) w) eqn:Eb.
+  - rewrite !repeat_list_nil0. reflexivity.
+  - apply Nat.eqb_eq in H. rewrite H. reflexivity.
+Qed.
 
 Lemma go_item_uniq_ok it : In it (compile_items a m) -> m_uniq_per_type m = true \/ uniq_names_ok it = true.
 Proof.
@@ -626,9 +650,8 @@ Theorem go_vs_ideal_proved : Forall2 item_ok (compile_items a Ideal) (compile_it
 Proof.
   unfold compile_items. apply Forall2_flat_map. intros [p w] Hpw. cbn [fst snd]. unfold ws_items.
   constructor.
-  - unfold ws_item, acl_repeat. cbn [m_acl_repeat Ideal]. rewrite repeat_list_1. cbn [item_ok]. repeat split; auto.
-    destruct (m_acl_repeat m); [eexists; reflexivity | exists O; rewrite repeat_list_1; auto].
-  - apply Forall2_app; [apply Forall2_refl; apply item_ok_refl|].
+  - unfold ws_item. rewrite (acl_once p w Hpw). unfold acl_repeat. cbn [m_acl_repeat Ideal item_ok]. repeat split; auto.
+  - apply Forall2_app; [rewrite (desc_item_eq p w Hpw); apply Forall2_refl; apply item_ok_refl|].
     apply Forall2_flat_map. intros i Hi. apply stmt_items_ok; auto.
 Qed.
 
@@ -774,12 +797,12 @@ Proof.
 Qed.
 
 Lemma item_ok_sim i g : (forall q ab anc d u acl, i = ItWs q ab anc d u acl -> ops_valid acl = true) ->
-  item_ok i g -> item_sim acl_power i g = true.
+  item_ok i g -> item_sim acl_eqb i g = true.
 Proof.
   intros Hv H. destruct i; cbn in H; try (subst g; apply item_sim_refl; intros; discriminate).
-  destruct g; try discriminate. destruct H as (-> & -> & -> & -> & -> & k & ->). cbn.
+  destruct g; try discriminate. destruct H as (-> & -> & -> & -> & -> & ->). cbn.
   rewrite qname_eqb_refl, bool_eqb_refl, !(set_eqb_refl _ qname_eqb_refl), (opt_eqb_refl _ qname_eqb_refl).
-  cbn [andb]. apply acl_power_repeat. eapply Hv; eauto.
+  cbn [andb]. apply acl_eqb_refl. eapply Hv; eauto.
 Qed.
 
 Lemma item_ok_key i g : item_ok i g -> item_key i = item_key g.
@@ -801,14 +824,14 @@ Lemma Forall2_len {A B} (R : A -> B -> Prop) l1 l2 : Forall2 R l1 l2 -> List.len
 Proof. induction 1; cbn; auto. Qed.
 
 Lemma Forall2_dump_match exp obs :
-  Forall2 (fun i g => item_sim acl_power i g = true) exp obs -> NoDup (map item_key obs) ->
-  dump_match acl_power exp obs = true.
+  Forall2 (fun i g => item_sim acl_eqb i g = true) exp obs -> NoDup (map item_key obs) ->
+  dump_match acl_eqb exp obs = true.
 Proof.
   intros HF Hn. unfold dump_match. rewrite (NoDup_nodup_b _ Hn), andb_true_r.
-  assert (H1 : forallb (fun e => existsb (item_sim acl_power e) obs) exp = true).
+  assert (H1 : forallb (fun e => existsb (item_sim acl_eqb e) obs) exp = true).
   { clear Hn. induction HF as [|i g l1 l2 Hs HF IH]; cbn; auto. rewrite Hs. cbn.
     eapply forallb_forall. intros e He. rewrite forallb_forall in IH. rewrite (IH _ He). apply orb_true_r. }
-  assert (H2 : forallb (fun o => existsb (fun e => item_sim acl_power e o) exp) obs = true).
+  assert (H2 : forallb (fun o => existsb (fun e => item_sim acl_eqb e o) exp) obs = true).
   { clear Hn H1. induction HF as [|i g l1 l2 Hs HF IH]; cbn; auto. rewrite Hs. cbn.
     eapply forallb_forall. intros o Ho. rewrite forallb_forall in IH. rewrite (IH _ Ho). apply orb_true_r. }
   rewrite H1, H2. cbn. apply Nat.eqb_eq. eapply Forall2_len; eauto.
@@ -854,31 +877,72 @@ Theorem satisfies_model_output_proved a m :
   (m_uniq_per_type m = true \/ no_unique_collision a m = true) ->
   (m_nested_inherit m = true \/ no_nested_user_inherit a = true) ->
   (m_view_refs m = true \/ no_view_ref_targets a = true) ->
+  (m_acl_repeat m = false \/ no_inherited_acl a = true) ->
+  (m_res_pkg m = true \/ names_distinct a = true) ->
+  (m_res_inh m = true \/ inherits_qualified a = true) ->
+  (m_desc_refs m = true \/ no_desc_ref_targets a = true) ->
   exists d, compile a m = Some d /\ satisfies (Trace a (render a) (Compiled d true true)) = true.
 Proof.
-  intros Hwf Hc Hn Hv. exists (compile_items a m).
-  pose proof (go_vs_ideal_proved a m Hc Hn Hv) as HF.
+  intros Hwf Hc Hn Hv Ha Hrp Hri Hd. exists (compile_items a m).
+  pose proof (go_vs_ideal_proved a m Hc Hn Hv Ha Hd) as HF.
   destruct (wf_parts a Hwf) as (Hkeys & _ & Hu).
+  assert (Hres : resolves_like_spec a m = true).
+  { unfold resolves_like_spec. apply andb_true_iff. split; apply orb_true_iff; tauto. }
   split.
-  - unfold compile, accepts. rewrite Hwf. unfold no_unique_collision in *. rewrite (Forall2_uniq _ _ HF Hu). reflexivity.
-  - unfold satisfies. cbn [tr_ast tr_out]. unfold compile, accepts. rewrite Hwf, Hu. cbn [andb]. rewrite !andb_true_r.
+  - unfold compile, accepts. rewrite Hwf, Hres. unfold no_unique_collision in *. rewrite (Forall2_uniq _ _ HF Hu). reflexivity.
+  - unfold satisfies. cbn [tr_ast tr_out]. unfold compile, accepts, resolves_like_spec. cbn [m_res_pkg m_res_inh Ideal orb].
+    rewrite Hwf, Hu. cbn [andb]. rewrite !andb_true_r.
     apply Forall2_dump_match.
     + eapply Forall2_impl_in; [|exact HF]. intros i g Hi Hok. apply item_ok_sim; auto.
       intros. eapply ideal_ws_acl_valid; eauto.
     + rewrite <- (Forall2_keys _ _ HF). auto.
 Qed.
 
+Ltac go_flag := unfold Go; cbn [m_uniq_per_type m_nested_inherit m_view_refs m_acl_repeat m_res_pkg m_res_inh m_desc_refs];
+  repeat match goal with H : _ = true |- _ => rewrite H; clear H end; reflexivity.
+
 (* the link theorem for the compiler as it is: no hypothesis on the schema beyond well-formedness,
-   given that the source does the three things the way the spec does (side conditions on Gen/Params.v) *)
+   given that the source does the six things the way the spec does (side conditions on Gen/Params.v) *)
 Theorem go_meets_spec_proved :
   parser_uniques_numbered_per_type = true -> parser_nested_tables_inherit = true -> parser_view_refs_recorded = true ->
+  parser_inherited_grants_once = true -> parser_lookup_respects_package = true -> parser_inherits_in_own_package = true ->
+  parser_descriptor_refs_analysed = true ->
   forall a, wf a = true ->
   exists d, compile a Go = Some d /\ satisfies (Trace a (render a) (Compiled d true true)) = true.
 Proof.
-  intros H1 H2 H3 a Hwf. apply satisfies_model_output_proved; auto; left; cbn; auto.
+  intros H1 H2 H3 H4 H5 H6 H7 a Hwf. apply (satisfies_model_output_proved a Go Hwf); left; go_flag.
+Qed.
+
+(* the same while some repairs are missing: the schema avoids the shapes the missing ones are about *)
+Theorem go_meets_spec_within_proved :
+  parser_uniques_numbered_per_type = true -> parser_nested_tables_inherit = true -> parser_view_refs_recorded = true ->
+  forall a, wf a = true ->
+  (parser_inherited_grants_once = true \/ no_inherited_acl a = true) ->
+  (parser_lookup_respects_package = true \/ names_distinct a = true) ->
+  (parser_inherits_in_own_package = true \/ inherits_qualified a = true) ->
+  (parser_descriptor_refs_analysed = true \/ no_desc_ref_targets a = true) ->
+  exists d, compile a Go = Some d /\ satisfies (Trace a (render a) (Compiled d true true)) = true.
+Proof.
+  intros H1 H2 H3 a Hwf H4 H5 H6 H7. apply (satisfies_model_output_proved a Go Hwf).
+  - left; clear H4 H5 H6 H7; go_flag.
+  - left; clear H4 H5 H6 H7; go_flag.
+  - left; clear H4 H5 H6 H7; go_flag.
+  - destruct H4 as [H4 | H4]; [left; clear H5 H6 H7; go_flag | right; auto].
+  - destruct H5 as [H5 | H5]; [left; clear H4 H6 H7; go_flag | right; auto].
+  - destruct H6 as [H6 | H6]; [left; clear H4 H5 H7; go_flag | right; auto].
+  - destruct H7 as [H7 | H7]; [left; clear H4 H5 H6; go_flag | right; auto].
 Qed.
 
 Theorem go_item_for_item_proved :
   parser_uniques_numbered_per_type = true -> parser_nested_tables_inherit = true -> parser_view_refs_recorded = true ->
-  forall a, Forall2 item_ok (compile_items a Ideal) (compile_items a Go).
-Proof. intros H1 H2 H3 a. apply go_vs_ideal_proved; left; cbn; auto. Qed.
+  forall a, (parser_inherited_grants_once = true \/ no_inherited_acl a = true) ->
+  (parser_descriptor_refs_analysed = true \/ no_desc_ref_targets a = true) ->
+  Forall2 item_ok (compile_items a Ideal) (compile_items a Go).
+Proof.
+  intros H1 H2 H3 a H4 H7. apply go_vs_ideal_proved.
+  - left; clear H4 H7; go_flag.
+  - left; clear H4 H7; go_flag.
+  - left; clear H4 H7; go_flag.
+  - destruct H4 as [H4 | H4]; [left; clear H7; go_flag | right; auto].
+  - destruct H7 as [H7 | H7]; [left; clear H4; go_flag | right; auto].
+Qed.
